@@ -18,7 +18,8 @@ RULE = ('scenario corpus = the 23 conversations of C03 (both roles: echo, multi-
         '{peer disconnect after every byte prefix of the peer\'s stream; peer disconnect delivered at every non-quiescent loop head; '
         'connection reset; send failing on a dead connection; peer silence (10.5 s in three advances) at every quiescent point, judged '
         'against where the TLC-checked protocol model arms ARTIM; the same silence while another association of the same process is set '
-        'up and released in between; stop request (kill flag) and stop() at every quiescent point}. Oracle: run() returns, no exception, '
+        'up and released in between; the peer chattering instead (stray PDUs every 4 s for 10.5 s) where ARTIM is armed; a local primitive that cannot be encoded '
+        '(the loop may end with the error, but stopped: exit event set, transport released, user told); stop request (kill flag) and stop() at every quiescent point}. Oracle: run() returns, no exception, '
         'no hang, no blocking recv; after a disconnect or ARTIM expiry the provider is idle (Sta1) with the transport closed and the timer '
         'stopped; an abort indication was given iff an association had been indicated and the local user had not ended it itself; the '
         'loop-exited event is set whenever run() ends. Part 2 (coverage.part2_whole_stack): eleven endings through the whole stack under '
@@ -90,6 +91,8 @@ def cases(tier, seed):
             yield {'conv': name, 'fault': 'reset', 'at': i}
             yield {'conv': name, 'fault': 'send-fails', 'at': i}
             yield {'conv': name, 'fault': 'silence-while-other-association-runs', 'at': i}
+            yield {'conv': name, 'fault': 'local-error', 'at': i}
+            yield {'conv': name, 'fault': 'chatter', 'at': i}
 
 
 def domain(tier):
@@ -155,6 +158,15 @@ def run_case(case):
             hist += [('tick', 4.0), ('other', 'ac', other), ('tick', 4.0), ('tick', 2.5)]
         elif fault == 'reset':
             hist.append(('reset',))
+        elif fault == 'chatter':
+            # where ARTIM is armed the peer does not go silent but keeps sending association requests and junk, more often
+            # than ARTIM: from the first of them on (at the latest) the provider is in Sta13, where nothing restarts the timer
+            hist += [('tick', 1.0), ('bytes', e2.unknown_pdu()), ('tick', 4.0), ('bytes', e2.std_rq()), ('tick', 4.0), ('bytes', e2.unknown_pdu()),
+                     ('tick', 2.5)]
+        elif fault == 'local-error':
+            # the local user hands over a primitive that cannot be encoded (abort reason 300): whatever the loop does with the
+            # error, the provider must end up stopped - exit event set (kill() returns), transport released
+            hist.append(('user', ('abort', 0, 300)))
         elif fault == 'send-fails':
             # the connection died unnoticed; the local user's next primitive makes the provider write to it
             nxt = [p for k, p, ri in items[at:] if k == 'user'][:1]
@@ -166,6 +178,20 @@ def run_case(case):
     env = e2.Env(role, hist, deviations=dev, dev_guard=guard, budget=3000).run()
     fin = env.final
     viol = []
+    if fault == 'local-error':
+        if fin['status'] == 'raised':
+            if not fin['thread_flag']:
+                viol.append((sig + ':exit-event-not-set', 'the loop ended with %s but the loop-exited event is not set: kill() / Association.kill() would '
+                             'wait forever (%s)' % (fin['exc'], where)))
+            if fin['sock'] == 'open':
+                viol.append((sig + ':transport-left-open', 'the loop ended with %s and left the transport open (%s)' % (fin['exc'], where)))
+            inds = [x for st in env.steps for x in st['inds']]
+            if any(x[0] in ('A-ASSOCIATE-RQ', 'A-ASSOCIATE-AC') for x in inds) and not any(x[0] in ('A-ABORT', 'A-RELEASE-RP') for x in inds):
+                viol.append((sig + ':user-not-told', 'the loop ended with %s; an association had been indicated, no abort indication followed (%s)' % (fin['exc'], where)))
+            return {'viol': viol, 'case': case if viol else None, 'key': (name, fault, at, None)}
+        if fin['status'] in ('hang', 'blocked-recv'):
+            viol.append((sig + ':loop-%s' % fin['status'], 'provider loop %s (%s)' % (fin['status'], where)))
+            return {'viol': viol, 'case': case, 'key': None}
     if fin['status'] in ('raised', 'hang', 'blocked-recv'):
         viol.append((sig + ':loop-%s:%s' % (fin['status'], (fin['exc'] or '').split('(')[0]), 'provider loop %s: %s (%s)' % (fin['status'], fin['exc'], where)))
         return {'viol': viol, 'case': case, 'key': None}
@@ -197,6 +223,11 @@ def run_case(case):
         if armed and (fin['state'] != 0 or fin['sock'] == 'open' or fin['timer']):
             viol.append((sig + ':artim-not-honoured', 'ARTIM armed, peer silent for 10.5 s while another association of the same process was set up and released: '
                          'provider in Sta%d, transport %s, timer %s (%s)' % (fin['state'] + 1, fin['sock'], 'running' if fin['timer'] else 'not running', where)))
+    elif fault == 'chatter':
+        armed = _model_armed(role, hist[:-7])
+        if armed and (fin['state'] != 0 or fin['sock'] == 'open' or fin['timer']):
+            viol.append((sig + ':artim-not-honoured', 'ARTIM armed; the peer kept sending (unknown PDU, A-ASSOCIATE-RQ, unknown PDU at 4 s intervals) for 10.5 s after '
+                         'its first stray PDU: provider in Sta%d, transport %s, timer %s (%s)' % (fin['state'] + 1, fin['sock'], 'running' if fin['timer'] else 'not running', where)))
     elif fault == 'silence':
         before = None
         k = len(hist) - 3
